@@ -26,6 +26,7 @@ import (
 	"github.com/mgtv-tech/redis-GunYu/pkg/redis/client/common"
 	usync "github.com/mgtv-tech/redis-GunYu/pkg/sync"
 	"github.com/mgtv-tech/redis-GunYu/pkg/util"
+	"github.com/mgtv-tech/redis-GunYu/pkg/verifhook"
 )
 
 type Output interface {
@@ -901,9 +902,11 @@ func (ro *RedisOutput) sendCmdsBatch(replayWait usync.WaitCloser, conn client.Re
 	}
 	batchTicker := time.NewTicker(time.Duration(ro.cfg.BatchTicker))
 	defer batchTicker.Stop()
+	verifhook.Ticker("batch", batchTicker)
 
 	keepaliveTicker := time.NewTicker(time.Duration(ro.cfg.KeepaliveTicker))
 	defer keepaliveTicker.Stop()
+	verifhook.Ticker("keepalive", keepaliveTicker)
 
 	cpTicker := ro.cfg.UpdateCheckpointTicker
 	if transactionMode {
@@ -911,6 +914,7 @@ func (ro *RedisOutput) sendCmdsBatch(replayWait usync.WaitCloser, conn client.Re
 	}
 	updateCpTicker := time.NewTicker(cpTicker)
 	defer updateCpTicker.Stop()
+	verifhook.Ticker("checkpoint", updateCpTicker)
 
 	cpInDbs := make(map[int]struct{})
 
@@ -1105,6 +1109,7 @@ func (ro *RedisOutput) sendCmdsBatch(replayWait usync.WaitCloser, conn client.Re
 	for {
 		transactionBatch := transactionMode
 		shouldUpdateCP := ro.cfg.EnableResumeFromBreakPoint && transactionMode
+		verifhook.Point("sendCmdsBatch.loop", len(cmdQueue), lastOffset, inTransaction)
 		select {
 		case item, ok := <-sendBuf:
 			if !ok {
